@@ -53,7 +53,7 @@ func thrownKinds(w *core.World, fn *ssa.Function, depth int) map[string]bool {
 			}
 			if d < 2 {
 				for _, c := range core.Calls(h, true) {
-					if sf := core.StaticFn(c); sf != nil && sf.Pkg != nil && core.InMod(sf.Pkg.Pkg.Path()) {
+					if sf := core.StaticFn(c); core.InModFn(sf) {
 						rv(sf, d+1)
 					}
 				}
@@ -77,7 +77,7 @@ func thrownKinds(w *core.World, fn *ssa.Function, depth int) map[string]bool {
 				v = ex.Tuple
 			}
 			if c, ok := v.(*ssa.Call); ok {
-				if sf := c.Common().StaticCallee(); sf != nil && sf.Pkg != nil && core.InMod(sf.Pkg.Pkg.Path()) {
+				if sf := c.Common().StaticCallee(); core.InModFn(sf) {
 					returned(sf)
 				}
 			}
@@ -87,7 +87,7 @@ func thrownKinds(w *core.World, fn *ssa.Function, depth int) map[string]bool {
 		}
 		for _, c := range core.Calls(f, true) {
 			sf := core.StaticFn(c)
-			if sf == nil || sf.Pkg == nil || !core.InMod(sf.Pkg.Pkg.Path()) {
+			if !core.InModFn(sf) {
 				continue
 			}
 			visit(sf, d+1)
